@@ -11,7 +11,9 @@ from ..pools import pick, subset
 ID = "C20"
 LEVEL = "exploration"
 RUNS = {"quick": 4000, "thorough": 200000}
-REQUIRED_FAULTS = ["F4.damaged_file", "F6.eio_on_open", "F6.vanish_after_exists", "F7.listdir_order"]
+REQUIRED_FAULTS = ["F4.damaged_file", "F6.eio_on_open", "F6.vanish_after_exists", "F7.listdir_order",
+                   "F10.net_refused", "F10.net_http503", "F10.net_disconnect", "F10.net_timeout", "F10.net_body_cut"]
+NET_FAULTS = ["refused", "http503", "disconnect", "timeout", "body_cut"]
 MACHINES = ["M-CD"]
 
 ATTRS = ["info", "images", "rpms", "modules"]
@@ -23,6 +25,86 @@ DAMAGES = ["torn", "garbage", "nonutf8", "empty", "bad-constraint", "missing-key
 
 
 def generate(rng, tier, idx):
+    if idx % 5 == 4:
+        return generate_remote(rng, tier, idx)
+    return generate_local(rng, tier, idx)
+
+
+def generate_remote(rng, tier, idx):
+    """the same compose addressed by URL: an in-process peer serves the simulated disk over (fake) HTTP; directories cannot
+    be listed there, so the layouts are direct and compose/ (a version-named subdirectory may be present: then nothing is
+    promised about the location).  Network faults land inside the constructor's probe and inside accesses - on the n-th
+    request of the access, i.e. on an existence probe, on the probe of the second candidate name or on the transfer itself."""
+    root = pick(rng, ["/sim/c", "/sim/c", "/sim/compose", "/sim/x/compose", "/sim/metadata", "/sim/deep/er/c", "/sim/.hidden",
+                      "/sim/F-22-20150522.2", "/sim/with space", "/sim/ünï", "/sim/a%20b", "/sim/n#4"])
+    ops = [{"op": "cd_mkdir", "path": root}]
+    tag = [0]
+
+    def put(base, attr, which, dmg=None):
+        name, kind = NAMES[attr][which]
+        tag[0] += 1
+        ops.append({"op": "cd_put", "path": "%s/metadata/%s" % (base, name), "kind": kind, "tag": tag[0], "damage": dmg})
+        if dmg is None and kind != "composeinfo" and rng.random() < 0.15:
+            ops[-1]["empty"] = True
+
+    layouts = subset(rng, ["direct", "compose"], 1, 2)
+    if rng.random() < 0.08:
+        layouts.append("legacy")
+    bases = {"direct": root, "compose": root + "/compose", "legacy": root + "/7.0"}
+    for lay in layouts:
+        base = bases[lay]
+        ops.append({"op": "cd_mkdir", "path": base + "/metadata"})
+        for attr in ATTRS:
+            r = rng.random()
+            if attr == "info" and lay == "compose" and rng.random() < 0.85:
+                r = 0.0
+            if r < 0.5:
+                which = [0]
+            elif r < 0.68 and len(NAMES[attr]) > 1:
+                which = [1]
+            elif r < 0.82 and len(NAMES[attr]) > 1:
+                which = [0, 1]
+            elif r < 0.86:
+                which = [0]
+            else:
+                which = []
+            for w in which:
+                put(base, attr, w, pick(rng, DAMAGES) if rng.random() < 0.2 else None)
+    for d in subset(rng, ["logs", "work"], 0, 2):
+        ops.append({"op": "cd_mkdir", "path": "%s/%s" % (root, d)})
+    given = root + ("/" if rng.random() < 0.4 else "")
+    opener = {"op": "cd_open", "path": given, "repeat": rng.randint(1, 3)}
+    if rng.random() < 0.25:
+        opener["fault"] = pick(rng, NET_FAULTS)
+        opener["nth"] = 0
+    ops.append(opener)
+    for _ in range(rng.randint(3, 12)):
+        r = rng.random()
+        attr = pick(rng, ATTRS)
+        if r < 0.5:
+            ops.append({"op": "cd_access", "attr": attr})
+            if rng.random() < 0.3:
+                ops[-1]["gc"] = True
+        elif r < 0.78:
+            ops.append({"op": "cd_access", "attr": attr, "fault": pick(rng, NET_FAULTS), "nth": pick(rng, [0, 0, 1, 1, 2])})
+        elif r < 0.87:
+            lay = pick(rng, layouts)
+            name, kind = pick(rng, NAMES[attr])
+            ops.append({"op": "cd_rm", "path": "%s/metadata/%s" % (bases[lay], name)})
+        else:
+            lay = pick(rng, layouts)
+            put(bases[lay], attr, rng.randrange(len(NAMES[attr])), pick(rng, DAMAGES) if rng.random() < 0.3 else None)
+        if rng.random() < 0.1:
+            ops.append({"op": "cd_open", "path": given, "repeat": 2})
+        elif rng.random() < 0.1:
+            ops.append({"op": "cd_bystanders", "path": given, "n": rng.randint(1, 2)})
+    net = {"chunked": rng.random() < 0.4, "chunk": pick(rng, [1, 7, 64, 4096]), "piece": pick(rng, [1, 3, 17, 512, 8192, 65536]),
+           "autoindex": rng.random() < 0.5, "ctype": pick(rng, ["application/json", "text/plain", "application/octet-stream", "text/html; charset=utf-8"])}
+    cfg = {"listdir": "sorted", "remote": pick(rng, ["http", "http", "https"]), "net": net}
+    return {"machine": "M-CD", "cfg": cfg, "ops": ops}
+
+
+def generate_local(rng, tier, idx):
     root = pick(rng, ["/sim/c", "/sim/c", "/sim/compose[1]", "/sim/F-22-updates[testing]-20150522.2", "/sim/with space", "/sim/st*r?",
                       "/sim/ünï", "/sim/deep/er/c", "/sim/.hidden", "/sim/compose", "/sim/x/compose", "/sim/metadata", "/sim/n#4", "/sim/what?", "/sim/a%20b"])
     ops = [{"op": "cd_mkdir", "path": root}]
@@ -43,6 +125,8 @@ def generate(rng, tier, idx):
         name, kind = NAMES[attr][which]
         tag[0] += 1
         ops.append({"op": "cd_put", "path": "%s/metadata/%s" % (base, name), "kind": kind, "tag": tag[0], "damage": dmg})
+        if dmg is None and kind != "composeinfo" and rng.random() < 0.15:
+            ops[-1]["empty"] = True
 
     layouts = subset(rng, ["direct", "compose", "legacy"], 1, 3)
     if rng.random() < 0.5:
@@ -87,6 +171,8 @@ def generate(rng, tier, idx):
         attr = pick(rng, ATTRS)
         if r < 0.6:
             ops.append({"op": "cd_access", "attr": attr})
+            if rng.random() < 0.3:
+                ops[-1]["gc"] = True
         elif r < 0.75:
             ops.append({"op": "cd_access", "attr": attr, "fault": pick(rng, ["vanish", "eio_open", "eacces", "eio_read"])})
         elif r < 0.85:
